@@ -462,6 +462,14 @@ func (rtcmHandler *Handler) GetMessage(bitStream []byte) (*Message, error) {
 
 		const timestampPosition = utils.LeaderLengthBits + header.LenMessageType + header.LenStationID
 
+		// The message must be long enough to contain the timestamp.  (The CRC
+		// check only guarantees that the message is at least one byte long.)
+		const minBitsForTimestamp = header.LenMessageType + header.LenStationID + header.LenTimeStamp
+		if messageLength*8 < minBitsForTimestamp {
+			message.ErrorMessage = "MSM message is too short to contain a timestamp"
+			return message, errors.New(message.ErrorMessage)
+		}
+
 		message.Timestamp =
 			uint(utils.GetBitsAsUint64(bitStream, timestampPosition, header.LenTimeStamp))
 
